@@ -450,6 +450,58 @@ def miri_leg(run, seeds):
     return ref
 
 
+def race_leg(run, binary, circles, nproc, ndocs):
+    """totality under concurrency: T threads of one process convert a hostile corpus at the same time
+    (driver `race` mode); every single conversion must return a document"""
+    import struct
+    import c07
+    rng = rng_for(run.seed, ID, 'race-corpus')
+    docs = []
+    for i in range(ndocs):
+        fam = (fam_dense, fam_unicode, fam_grammar, fam_legend_mix)[i % 4]
+        docs.append(fam(rng) if fam is not fam_dense else fam_dense(rng))
+    for i in range(ndocs // 4):
+        docs.append(fam_mutated(rng, circles))
+    docs = [d.replace('\x1e', ' ') for d in docs]
+    keys = [(i % 4 if i % 4 != 3 else 3, d, 'white', 'black', 8.0) for i, d in enumerate(docs)]
+    os.makedirs(WORK, exist_ok=True)
+    cpath = os.path.join(WORK, 'c01-race-corpus.bin')
+    c07.write_corpus(cpath, keys)
+    env = dict(os.environ)
+    env.pop('RUST_BACKTRACE', None)
+    procs = []
+    for k in range(nproc):
+        T = (2, 4, 8, 16)[k % 4]
+        out = os.path.join(WORK, 'c01-race-%d.bin' % k)
+        procs.append((T, out, subprocess.Popen([binary, 'race', str(T), cpath, out], env=env, stdout=subprocess.DEVNULL, stderr=subprocess.PIPE)))
+    n = 0
+    for T, out, p in procs:
+        try:
+            _, err = p.communicate(timeout=1800)
+        except subprocess.TimeoutExpired:
+            p.kill()
+            run.inconclusive['race process watchdog'] += 1
+            continue
+        if p.returncode != 0 or not os.path.exists(out):
+            run.violations.append({'case': {'race_threads': T, 'corpus': 'hostile families, seed %d' % run.seed}, 'signature': None,
+                                   'message': 'a process in which %d threads convert concurrently died with status %s: %s' % (T, p.returncode, err.decode('utf-8', 'replace')[-600:])})
+            run.nviol += 1
+            continue
+        res, init = c07.read_race(out)
+        os.unlink(out)
+        for (t, i, st, body) in res:
+            n += 1
+            if st != 0:
+                run.violations.append({'case': {'input': docs[i], 'kw': {'entry': keys[i][0]}, 'family': 'race', 'race_threads': T}, 'signature': None,
+                                       'message': 'conversion panicked while %d threads were converting concurrently: %s' % (T, body.decode('utf-8', 'replace')[:300])})
+                run.nviol += 1
+                if run.nviol > 20:
+                    break
+    run.evals += n
+    run.tags['concurrent_conversions'] += n
+    run.tags['race_processes'] += nproc
+
+
 def execute(run):
     from vlib import driver_info
     binary = build_driver()
@@ -479,6 +531,7 @@ def execute(run):
     # long shards first so that the pool is balanced
     shards.sort(key=lambda s: 0 if s['family'] in ('ladder', 'nesting') or s.get('big') else 1)
     run.run_shards(binary, shards, extra=extra)
+    race_leg(run, binary, info['circles'], 4 if run.tier == 'quick' else 16, 240 if run.tier == 'quick' else 800)
     if run.tier == 'thorough':
         checked_leg(run, info)
         asan_leg(run, info)
